@@ -41,6 +41,13 @@ def run(ctx):
                 if data: data[rnd.randrange(len(data))] = rnd.getrandbits(8)
             data = bytes(data)
         cases.append(mkcase('R%d' % i, lib.new_cfg(on_error=rnd.choice(['ignore', 'stdout', 'stderr', 'panic'])), data))
+    # strings made of \\u escapes: surrogate halves and pairs (valid, reversed, out of range), BMP edges
+    frags = ['\\ud83d\\ude00', '\\udbff\\uffff', '\\udbff\\udfff', '\\ud800', '\\udc00', '\\udc00\\ud800', '\\ud800\\ud800', '\\ud800x', '\\uffff', '\\u0000', '\\ud7ff', '\\ue000',
+             '\\udbf8\\ufc00', '\\uDBFF\\uFFFF', '\\ud83d', 'a', '\\n', '\\ud83d\\u0041', '\\u00e9', '\\ud8']
+    for i in range(150 if tier == 'quick' else 5000):
+        body = ''.join(rnd.choice(frags) for _ in range(rnd.randint(1, 4)))
+        data = ('"%s"' % body).encode() if rnd.random() < 0.7 else ('{"k%s": ["%s"]}' % (rnd.choice(frags), body)).encode()
+        cases.append(mkcase('U%d' % i, lib.new_cfg(on_error=rnd.choice(['ignore', 'panic'])), data))
     # deep nesting
     for d in (10, 64):
         cases.append(mkcase('N%d' % d, lib.new_cfg(), b'[' * d + b']' * d)); cases.append(mkcase('M%d' % d, lib.new_cfg(), b'{"a":' * d + b'1' + b'}' * d))
